@@ -56,6 +56,9 @@ namespace
         for (auto& s : c.at(key).a) { out.push_back({ s.str("a"), s.str("k", "sqf"), s.str("t") }); }
         return out;
     }
+    void turn(const std::string& who);
+    bool g_fine = false;
+    extern thread_local const char* tl_who;
     void create(prog& p, const std::string& ops)
     {
         p.v = make_vm({}, ops == "basic" ? opsset::basic : ops == "none" ? opsset::none : opsset::full);
@@ -63,6 +66,9 @@ namespace
         p.v.logger->keep = false;
         p.v.logger->sink = [pp](const diag& d) {
             pp->line(std::to_string(d.level) + "|" + std::to_string(d.code) + "|L" + std::to_string(d.line) + "|C" + std::to_string(d.col) + "|" + d.file + "|" + d.text);
+            // per-instruction schedules: a diagnostic delivered in the middle of an operator is a scheduling point, too
+            // (the other instance may run while this one is inside its log callback)
+            if (g_fine && tl_who) { turn(tl_who); }
         };
         p.created = true;
     }
@@ -168,6 +174,7 @@ static void cmd_iso(const J& c)
         g_gate = &g;
         bool fine = c.boolean("fine", false);
         if (fine) { verif::get().observe = &gate_observer; }
+        g_fine = fine;
         auto body = [&](prog* p) {
             tl_who = p->who.c_str();
             for (size_t i = 0; i < p->stmts.size(); i++)
@@ -184,6 +191,7 @@ static void cmd_iso(const J& c)
         tp.join(); tq.join();
         verif::get().observe = nullptr;
         g_gate = nullptr;
+        g_fine = false;
         emit_out(P);
         emit_out(Q);
         J o = ev("Order");
